@@ -120,6 +120,10 @@ pub fn summary(o: &Outcome) -> String {
 // ------------------------------------------------------------------ C05
 
 pub fn c05(rep: &mut Report, tier: &str, seed: u64, prop: &'static str) {
+    // bounded runs first (long lines, long sessions), then the closures
+    if prop == "C05" {
+        crate::checks_scale::c05_scale(rep, tier, seed);
+    }
     let caps = caps(tier);
     let max_cb = if tier == "quick" { 6 } else { 8 };
     let alphabet = vec![ch('a'), ch('b'), ch('é'), ch('中'), ch('𝄞'), k(Key::Bs), k(Key::Left), k(Key::Right)];
@@ -193,14 +197,12 @@ pub fn c05(rep: &mut Report, tier: &str, seed: u64, prop: &'static str) {
         run_cmd4(rep, cfg, &caps, seed);
         rep.required.push((name, "editor_insert_inside".into()));
     }
-    if prop == "C05" {
-        crate::checks_scale::c05_scale(rep, tier, seed);
-    }
 }
 
 // ------------------------------------------------------------------ C10
 
 pub fn c10(rep: &mut Report, tier: &str, seed: u64) {
+    crate::checks_scale::c10_scale(rep, tier, seed);
     let caps = caps(tier);
     let mon = Mon { history: true, invariants: true, ..Default::default() };
     let alphabet = vec![ch('a'), ch('é'), k(Key::Bs), k(Key::Left), k(Key::Lf), k(Key::Up), k(Key::Down)];
@@ -247,12 +249,14 @@ pub fn c10(rep: &mut Report, tier: &str, seed: u64) {
             run_raw(rep, cfg, &caps, seed);
         }
     }
-    crate::checks_scale::c10_scale(rep, tier, seed);
 }
 
 // ------------------------------------------------------------------ C01
 
 pub fn c01(rep: &mut Report, tier: &str, seed: u64, prop: &'static str) {
+    if prop == "C01" {
+        crate::checks_scale::c01_scale(rep, tier, seed);
+    }
     let caps = caps(tier);
     let mon = feat(Mon { dispatch: true, invariants: true, ..Default::default() });
     let alphabet = vec![
@@ -304,9 +308,6 @@ pub fn c01(rep: &mut Report, tier: &str, seed: u64, prop: &'static str) {
         run_cmd4(rep, cfg, &caps, seed);
         rep.required.push((name, "dispatch_with_command".into()));
     }
-    if prop == "C01" {
-        crate::checks_scale::c01_scale(rep, tier, seed);
-    }
 }
 
 // ------------------------------------------------------------------ C06 (+ C15 monitor)
@@ -338,6 +339,9 @@ pub fn c06_alphabet() -> Vec<Ev> {
 }
 
 pub fn c06(rep: &mut Report, tier: &str, seed: u64, prop: &'static str) {
+    if prop == "C06" || prop == "C15" {
+        crate::checks_scale::c06_scale(rep, tier, seed, prop);
+    }
     let caps = caps(tier);
     let mon = feat(if prop == "C15" {
         Mon { flush: true, invariants: true, ..Default::default() }
@@ -413,9 +417,6 @@ pub fn c06(rep: &mut Report, tier: &str, seed: u64, prop: &'static str) {
     let (cb, hb) = if tier == "quick" { (2, 3) } else { (3, 4) };
     let cfg = base_cfg(prop, format!("screen byte-granular cb={} hb={} raw", cb, hb), cb, hb, alphabet, mon.clone());
     run_raw(rep, cfg, &caps, seed);
-    if prop == "C06" || prop == "C15" {
-        crate::checks_scale::c06_scale(rep, tier, seed, prop);
-    }
 }
 
 // ------------------------------------------------------------------ C03
